@@ -120,6 +120,12 @@ def run(ctx):
             argv += ["-replace-mode", mode]
         if noout:
             argv.append("-no-output")
+        # every other run finds the named JSON files already there, longer than anything the run will write (a second run into the same files)
+        stale = {}
+        if i % 2 == 1:
+            for fn in ("out.json", "fout.json"):
+                stale[fn] = ('[{"stale": "' + "Z" * 60000 + '"}]\n').encode()
+                open(os.path.join(outside, fn), "wb").write(stale[fn])
         before = snapshot(d)
         try:
             p = subprocess.run(argv, cwd=d, capture_output=True, timeout=30)
@@ -130,6 +136,9 @@ def run(ctx):
         outs = snapshot(outside)
         shutil.rmtree(d, ignore_errors=True)
         shutil.rmtree(outside, ignore_errors=True)
+        for fn, c in stale.items():
+            if outs.get(fn) == c:
+                del outs[fn]          # untouched: as if it had not been there
         return (argv[1:], rc, so, se, before, after, outs, d)
 
     from concurrent.futures import ThreadPoolExecutor
